@@ -19,7 +19,7 @@ func TestDebugCase(t *testing.T) {
 	}
 	prop, idxs, _ := strings.Cut(spec, ":")
 	idx, _ := strconv.Atoi(idxs)
-	c := GenCase(prop, kit.RootSeed(20260921), idx, "quick")
+	c := GenCase(prop, kit.RootSeed(20260921), idx, tierOr("quick"))
 	if os.Getenv("VERIF_DEBUG_SEQ") != "" {
 		c.Strategy = Strategy{Kind: "sequential"}
 	}
@@ -36,4 +36,11 @@ func TestDebugCase(t *testing.T) {
 	}
 	v := Evaluate(t, c, nil)
 	fmt.Printf("verdict: ok=%v skipped=%q class=%s key=%s\ndetail=%s\n", v.OK, v.Skipped, v.Class, v.Key, v.Detail)
+}
+
+func tierOr(d string) string {
+	if t := os.Getenv("VERIF_DEBUG_TIER"); t != "" {
+		return t
+	}
+	return d
 }
